@@ -633,13 +633,54 @@ def r4(ctx):
         ctx.check(P, rule, "slot rotation yields only the two header slots", vs == {"FirstHeader", "SecondHeader"}, "returns FirstHeader | SecondHeader", "get_next_header_oplog_slot_and_bit_value can return %s" % sorted(vs))
 
 
-RULES = [r1, r3, r4]
+def has_fact(ctx, fa, bb, op, pa, pb):
+    """is the normalised comparison fact (op, a, b) with pa(sig a) and pb(sig b) established on entry to bb?"""
+    for o, a, b in known_relations(ctx, fa, bb):
+        if o == op and a is not None and b is not None and pa(term_sig_(a)) and pb(term_sig_(b)):
+            return True
+    return False
+
+
+def cmp_facts(ctx, fa, bb, pa, pb):
+    return sorted(set(o for o, a, b in known_relations(ctx, fa, bb) if a is not None and b is not None and isinstance(o, str) and o in CMP_FLIP and pa(term_sig_(a)) and pb(term_sig_(b))))
+
+
+def r5(ctx):
+    """request-validation contracts: the comparison under which a request is refused (or short-cut)
+    is the one the scheme prescribes — boundary cases included.  Comparisons are normalised
+    (negation, operand order), so `!(a < b)` and `b <= a` are the same fact as `a >= b`."""
+    rule = "C09.R5"
+    fa = ctx.fn(MT_CVP)
+    if need(ctx, P, rule, MT_CVP, fa):
+        hit = None
+        for bb, si, t in err_returns(fa):
+            conds = [term_sig_(o) for o, tr, _ in dominating_conditions(fa, bb) if tr is True]
+            if any(c == "is_some(seek)" for c in conds) and any(c == "is_some(upgrade)" for c in conds):
+                hit = bb
+        if need(ctx, P, rule, "create_valueless_proof: refusal of seek + block/hash inside the upgrade range", hit):
+            ops = cmp_facts(ctx, fa, hit, lambda a: a.endswith(".index") and "normalize_indexed" in a, lambda b: "upgrade).start" in b)
+            ctx.check(P, rule, "seek together with a block/hash at or beyond the upgrade start is refused", ops == ["Ge"], "refused when indexed.index >= from",
+                      "create_valueless_proof refuses seek + block/hash + upgrade only when indexed.index %s from (the scheme refuses `>=`): the boundary request proceeds into block_and_seek_proof with a block that is not under the seek root" % ops,
+                      [loc(fa, hit)], key="C09|C09.R5|create_valueless_proof|seek+block inside upgrade")
+    fv = ctx.fn(MT + "::validate_hypercore_index")
+    if need(ctx, P, rule, MT + "::validate_hypercore_index", fv):
+        errs = [bb for bb, _, _ in err_returns(fv)]
+        ops = cmp_facts(ctx, fv, errs[0], lambda a: "hypercore_index" in a, lambda b: b == "Mul(2, self.length)") if errs else []
+        ctx.check(P, rule, "an index at or beyond the tree head is out of bounds", ops == ["Ge"], "Err when compare_index >= 2*length", "validate_hypercore_index refuses only when compare_index %s head" % ops, key="C09|C09.R5|validate_hypercore_index")
+    fm = ctx.fn(MT_MISSING)
+    if need(ctx, P, rule, MT_MISSING, fm):
+        z = [bb for bb, _, t in ok_returns(fm) if is_agg(agg_field(t, "0"), "Right") and term_is_lit(agg_field(agg_field(t, "0"), "0"), 0)]
+        ops = cmp_facts(ctx, fm, z[0], lambda a: "factor" in a, lambda b: b == "Mul(2, self.length)") if z else []
+        ctx.check(P, rule, "missing_nodes answers 0 for an index outside the tree", ops == ["Ge"], "Ok(0) when right span >= 2*length", "missing_nodes short-cuts when right span %s head" % ops, key="C09|C09.R5|missing_nodes")
+
+
+RULES = [r1, r3, r4, r5]
 CONTROLS = ["c09_unguarded_index", "c09_loop_cannot_exit"]
 EXPLANATION = ("C09 (no peer request or proof can panic or hang the node): enumerates every panic-capable construct (bounds / subtraction / division asserts, unwrap/expect, Index on Vec/slice, "
                "panic! entry points, RefCell borrows, drain/split/pow) in the call-graph closure of create_proof and verify_and_apply_proof and requires each to be discharged by constant operands "
                "(A1), an automatically found dominating comparison guard over the same terms (A2), a reviewed entry whose required guard is re-verified to dominate (A3) or a reviewed invariant "
                "reported as assumed (A4) (R1, which subsumes bounds provenance: an index bounded against one collection and applied to another is undischarged); requires every natural loop in that "
-               "closure to have an exit condition its body can change (R3); requires the anchored request validations to be present and to precede every use (R4).")
+               "closure to have an exit condition its body can change (R3); requires the anchored request validations to be present and to precede every use (R4) and to use the prescribed comparison, boundary included (R5).")
 NOT_DECIDED = ("termination of loops whose exit depends on flat-tree arithmetic; panics inside dependency crates (flat_tree, compact_encoding, blake2, ed25519-dalek, intmap are leaves); memory exhaustion; "
                "that the A4 invariants (listed in the evidence as assumed) actually hold; add/mul/shl overflow (numeric fields are bounded below 2^40 by the property).")
 ASSUMPTIONS = ["numeric fields of requests and proofs are below 2^40", "A4 invariants in rules/panic_sites.json (each with a one-line reason) hold"]
